@@ -14,13 +14,23 @@ import Precis.Spec.Rfc5893
 import Precis.Spec.Rules
 import Precis.Facts.Prof
 import Precis.Lemmas.TableStep
+import Precis.Lemmas.BidiAux
 namespace Precis.C09
-open Precis Precis.Step Precis.Spec
+open Precis Precis.Step Precis.Spec Precis.Gen.Prof
+
+set_option maxRecDepth 1000000 in
+theorem bidi_len : (toStepV bidiClassTableL).length + Gen.Ucd16.bidiStep.length ≤ 10000 := by
+  decide +kernel
 
 /-- the generated class table, searched by binary search with default L, is Bidi_Class of
 UnicodeData 16.0.0 for every code point -/
 theorem bidi_table_is_ucd16 (cp : Nat) : bidiClass cp = Spec.bidi16 cp := by
-  sorry
+  have hs : sortedTable (bidiClassTable.toList.map (·.1)) = true := Facts.sorted_bidi
+  unfold bidiClass Spec.bidi16
+  rw [lookupVal_eq_eval bidiClassTable hs cp]
+  have ht : bidiClassTable.toList = bidiClassTableL := rfl
+  rw [ht, Step.agree_eval 10000 none (toStepV bidiClassTableL) none Gen.Ucd16.bidiStep bidi_len
+    Facts.bidi_agree cp]
 
 theorem isRtlClass_eq (c : BidiClass) : isRtlClass c = Spec.isRtlTrigger c := by
   cases c <;> rfl
@@ -29,7 +39,29 @@ theorem isRtlClass_eq (c : BidiClass) : isRtlClass c = Spec.isRtlTrigger c := by
 For every sequence of classes, of any length. -/
 theorem scan_exact (cs : List BidiClass) :
     satisfyBidiClasses cs = (Spec.bidiRule cs && !Spec.interiorNsm cs) := by
-  sorry
+  cases cs with
+  | nil => rfl
+  | cons first r =>
+    by_cases h1 : first = .R ∨ first = .AL
+    · have hc : (first == BidiClass.R || first == BidiClass.AL) = true := by
+        rcases h1 with h | h <;> subst h <;> rfl
+      have hc' : (decide (first = BidiClass.R) || decide (first = BidiClass.AL)) = true := by
+        rcases h1 with h | h <;> subst h <;> rfl
+      simp only [satisfyBidiClasses, Spec.bidiRule, hc, hc', if_true]
+      rw [BidiAux.validRtl_eq r first false false false (by simp), BidiAux.rtl_label first r h1]
+      rfl
+    · have hc : (first == BidiClass.R || first == BidiClass.AL) = false := by
+        cases first <;> first | rfl | exact absurd (by simp) h1
+      have hc' : (decide (first = BidiClass.R) || decide (first = BidiClass.AL)) = false := by
+        cases first <;> first | rfl | exact absurd (by simp) h1
+      by_cases h2 : first = .L
+      · subst h2
+        simp only [satisfyBidiClasses, Spec.bidiRule]
+        rw [BidiAux.validLtr_eq r .L false (by simp), BidiAux.ltr_label r]
+        rfl
+      · have hl : (first == BidiClass.L) = false := by simpa using h2
+        have hl' : decide (first = BidiClass.L) = false := by simpa using h2
+        simp [satisfyBidiClasses, Spec.bidiRule, hc, hc', hl, hl']
 
 /-- exact characterisation of the directionality rule -/
 theorem dir_rule_exact (s : List Nat) :
@@ -37,32 +69,54 @@ theorem dir_rule_exact (s : List Nat) :
       (let cs := s.map Spec.bidi16
        if !cs.any Spec.isRtlTrigger then .ok s
        else if Spec.bidiRule cs && !Spec.interiorNsm cs then .ok s else .err .invalid) := by
-  sorry
+  have hb : bidiClass = Spec.bidi16 := funext bidi_table_is_ucd16
+  have hr : isRtlClass = Spec.isRtlTrigger := funext isRtlClass_eq
+  have hh : hasRtl s = (s.map Spec.bidi16).any Spec.isRtlTrigger := by
+    simp [hasRtl, hb, hr, List.any_map, Function.comp_def]
+  simp only [directionalityRule, satisfyBidiRule, hh, hb, scan_exact]
+  cases (s.map Spec.bidi16).any Spec.isRtlTrigger <;> simp
 
 /-- on labels without an interior NSM the rule is the RFC 5893 Bidi rule -/
 theorem dir_rule_eq_rfc_partial (s : List Nat) (h : Spec.interiorNsm (s.map Spec.bidi16) = false) :
     directionalityRule s = Spec.specDirectionality Spec.bidi16 s := by
-  sorry
+  rw [dir_rule_exact]
+  simp [Spec.specDirectionality, h]
 
 /-- labels with no R/AL/AN character are accepted unchanged -/
 theorem dir_rule_no_rtl (s : List Nat) (h : (s.map Spec.bidi16).any Spec.isRtlTrigger = false) :
     directionalityRule s = .ok s := by
-  sorry
+  rw [dir_rule_exact]
+  simp [h]
 
 /-- the string is never modified, and rejection is the invalid-label error -/
 theorem dir_rule_never_modifies (s : List Nat) :
     directionalityRule s = .ok s ∨ directionalityRule s = .err .invalid := by
-  sorry
+  rw [dir_rule_exact]
+  simp only []
+  split
+  · exact Or.inl rfl
+  · split
+    · exact Or.inl rfl
+    · exact Or.inr rfl
 
 /-- the implementation never accepts a label the RFC rejects -/
 theorem dir_rule_sound (s : List Nat) (h : directionalityRule s = .ok s)
     (hr : (s.map Spec.bidi16).any Spec.isRtlTrigger = true) : Spec.bidiRule (s.map Spec.bidi16) = true := by
-  sorry
+  rw [dir_rule_exact] at h
+  simp only [hr, Bool.not_true] at h
+  cases hb : Spec.bidiRule (s.map Spec.bidi16)
+  · simp [hb] at h
+  · rfl
 
 /-- the full-strength statement fails: pointed Hebrew `R NSM R` is RFC-valid and rejected -/
 theorem deviation_witness :
     directionalityRule [0x5D0, 0x5B0, 0x5D1] = .err .invalid ∧
     Spec.specDirectionality Spec.bidi16 [0x5D0, 0x5B0, 0x5D1] = .ok [0x5D0, 0x5B0, 0x5D1] := by
-  sorry
+  rw [dir_rule_exact]
+  have h0 : Spec.bidi16 0x5D0 = .R := by decide +kernel
+  have h1 : Spec.bidi16 0x5B0 = .NSM := by decide +kernel
+  have h2 : Spec.bidi16 0x5D1 = .R := by decide +kernel
+  simp only [Spec.specDirectionality, List.map_cons, List.map_nil, h0, h1, h2]
+  decide
 
 end Precis.C09
